@@ -17,14 +17,14 @@ import (
 // C11 — every advertised encryption method round-trips exactly, on both key APIs.
 
 type C11Case struct {
-	Enc      h.EncSpec `json:"enc"`
-	Plain    []byte    `json:"plain"`
-	KeyMode  string    `json:"keyMode"` // tls | custom | setter | both
-	EAXML    string    `json:"eaXML"`   // serialised EncryptedAssertion element
-	Twin     bool      `json:"twin"`    // also run the encrypted-vs-plaintext twin differential
-	TwinEnc  string    `json:"twinEnc"`
-	TwinRaw  string    `json:"twinRaw"`
-	Placement string   `json:"placement"`
+	Enc       h.EncSpec `json:"enc"`
+	Plain     []byte    `json:"plain"`
+	KeyMode   string    `json:"keyMode"` // tls | custom | setter | both
+	EAXML     string    `json:"eaXML"`   // serialised EncryptedAssertion element
+	Twin      bool      `json:"twin"`    // also run the encrypted-vs-plaintext twin differential
+	TwinEnc   string    `json:"twinEnc"`
+	TwinRaw   string    `json:"twinRaw"`
+	Placement string    `json:"placement"`
 }
 
 func keyCfg(mode string) h.KeyCfg {
